@@ -8,7 +8,7 @@ pub fn prop() -> Prop {
     Prop {
         id: "C06",
         level: "model_checking",
-        rule: "clean streams of <=2 (thorough <=3) values over a 6-value core x 5 separator kinds (space, LF, tab, CRLF, touching) with k=0,1 (thorough 2) whitespace-delimited noise tokens (all 1- and 2-byte tokens over the 16 bytes } ] , : . e E + x * 0x80 0xff NUL and the UTF-8 lead bytes 0xc3 0xe2 0xf0 - so tokens ending in a truncated multi-byte character and complete 2-byte characters occur) in every gap (before/between/after) x 4 policies x 9 pipelines (none, select, sort, unique, group, take, only-objects-and-arrays, split+filter, csv output); 3-value streams with 1-byte tokens; streams of 10..300 values with a noise token in EVERY gap, all on one line or one per line; non-trivial = k>=1 and a value follows the noise; distinct by construction; every eighth single-noise case is also given as a file (same rows, same kind of result)",
+        rule: "clean streams of <=2 (thorough <=3) values over a 6-value core (a negative number with an exponent, a literal, an integer, a string, an array, a nested object) x 5 separator kinds (space, LF, tab, CRLF, touching) with k=0,1 (thorough 2) whitespace-delimited noise tokens (all 1- and 2-byte tokens over the 16 bytes } ] , : . e E + x * 0x80 0xff NUL and the UTF-8 lead bytes 0xc3 0xe2 0xf0 - so tokens ending in a truncated multi-byte character and complete 2-byte characters occur) in every gap (before/between/after) x 4 policies x 9 pipelines (none, select, sort, unique, group, take, only-objects-and-arrays, split+filter, csv output); 3-value streams with 1-byte tokens; streams of 10..300 values with a noise token in EVERY gap, all on one line or one per line; non-trivial = k>=1 and a value follows the noise; distinct by construction; every eighth single-noise case is also given as a file (same rows, same kind of result)",
         explanation: "differential against the run on the clean stream (and on the clean prefix for the panic policy), clause by clause as the property states; the reached-gap rule for --take follows the step-wise reference pipeline",
         assumptions: COMMON_ASSUMPTIONS.to_vec(),
         guards: vec!["noisy-stream-from-a-file", "many-noisy-regions-on-one-line", "noise-before-value", "panic-policy-prefix", "clean-crlf", "non-utf8-noise", "error-line-on-stdout", "error-line-on-stderr"],
@@ -19,7 +19,7 @@ pub fn prop() -> Prop {
     }
 }
 
-const CORE: [&str; 6] = ["null", "true", "12", "\"a\"", "[1,\"b\"]", "{\"a\":{}}"];
+const CORE: [&str; 6] = ["-2.5e1", "true", "12", "\"a\"", "[1,\"b\"]", "{\"a\":{}}"];
 const SEPS: [(&str, &str); 5] = [("space", " "), ("lf", "\n"), ("tab", "\t"), ("crlf", "\r\n"), ("touch", "")];
 const NOISE: [u8; 16] = [b'}', b']', b',', b':', b'.', b'e', b'E', b'+', b'x', b'*', 0x80, 0xff, 0x00, 0xc3, 0xe2, 0xf0];
 const POLICIES: [&str; 4] = ["ignore", "stdout", "stderr", "panic"];
